@@ -15,6 +15,7 @@ from `arm()`) by a fault:
   ('gone',)                    device unplugged: this and every later transport call raises IOError(ENODEV)
   ('short', n)                 response frame cut to its first n bytes
   ('garbled', bytes)           response frame replaced by the given bytes
+  ('ackgarbled', bytes)        the given bytes arrive in place of the ACK frame (the response follows)
   ('empty',)                   well-formed response frame without any payload after the response code
 
 Time is virtual: `VClock` is installed as the `time` attribute of the driver modules.
@@ -359,7 +360,7 @@ class Pn53xSim(HostSimBase):
         if kind == 'ioerror' and fault[2] == 'ack':
             self.queue = [ioerr(fault[1])]
             return
-        q.append(ACK)
+        q.append(bytes(fault[1]) if kind == 'ackgarbled' else ACK)
         # response stage
         if kind == 'timeout' or payload is None:
             pass
@@ -451,7 +452,7 @@ class Acr122Sim(Pn53xSim):
             self.queue = [self.ccid(bytes([0xD5, cmd + 1]) + b'\x90\x00')]
         elif kind == 'short':
             self.queue = [self.ccid(bytes([0xD5, cmd + 1]) + payload + b'\x90\x00')[:fault[1]]]
-        elif kind == 'garbled':
+        elif kind in ('garbled', 'ackgarbled'):
             self.queue = [bytes(fault[1])]
         else:
             self.queue = [self.ccid(bytes([0xD5, cmd + 1]) + payload + b'\x90\x00')]
@@ -544,7 +545,7 @@ class Rcs380Sim(HostSimBase):
         if kind == 'ioerror' and fault[2] == 'ack':
             self.queue = [ioerr(fault[1])]
             return
-        q = [ACK]
+        q = [bytes(fault[1]) if kind == 'ackgarbled' else ACK]
         if kind == 'timeout':
             pass
         elif kind == 'ioerror':
@@ -774,3 +775,55 @@ class FakeUsbDev(object):
 
     def close(self):
         self.sim.close()
+
+
+# ------------------------------------------------------------------ scenario independent runt / garbled frames
+def _prefixes(frame, upto=9):
+    return [frame[:n] for n in range(0, min(upto, len(frame)) + 1)]
+
+
+def runt_corpus(proto, cmd):
+    """small fixed corpus of runt and inconsistent frames for host protocol `proto` in
+    {'pn53x', 'rcs380', 'acr122'}; cmd is the command code the frame pretends to answer.
+    Every prefix (0..9 bytes) of a valid extended and of a valid normal frame, extended start
+    codes followed by one/two/three arbitrary bytes, LEN/LCS/DCS mismatches, zero-length frames."""
+    rc = (cmd + 1) & 255
+    H = bytes.fromhex
+    out = []
+    if proto in ('pn53x', 'rcs380'):
+        tfi = 0xD5 if proto == 'pn53x' else 0xD7
+        body = bytes([tfi, rc, 0, 1, 2])
+        dcs = bytes([(256 - sum(body)) & 255])
+        normal = b'\x00\x00\xff\x05\xfb' + body + dcs + b'\x00'
+        ext_be = b'\x00\x00\xff\xff\xff\x00\x05\xfb' + body + dcs + b'\x00'      # PN53x: big endian length
+        ext_le = b'\x00\x00\xff\xff\xff\x05\x00\xfb' + body + dcs + b'\x00'      # RC-S380: little endian length
+        out += _prefixes(normal) + _prefixes(ext_be) + _prefixes(ext_le)
+        out += [normal[:-1], normal[:-2], ext_be[:-1], ext_be[:-2], ext_le[:-1], ext_le[:-3]]
+        out += [b'\x00\x00\xff\xff\xff' + bytes([x]) for x in (0x00, 0x01, 0x7F, 0x80, 0xFE, 0xFF)]
+        out += [b'\x00\x00\xff\xff\xff' + H(x) for x in ('0000', '0001', '0100', '01ff', 'ffff', '00ff',
+                                                            '000000', '0001ff', '0100ff', '000100', 'ffff02', '0005fb')]
+        # LEN / LCS / DCS inconsistencies
+        out += [b'\x00\x00\xff\x05\xfa' + body + dcs + b'\x00', b'\x00\x00\xff\x04\xfc' + body + dcs + b'\x00',
+                b'\x00\x00\xff\x06\xfa' + body + dcs + b'\x00', b'\x00\x00\xff\x05\xfb' + body + b'\x00\x00',
+                b'\x00\x00\xff\xff\xff\x00\x05\xfa' + body + dcs + b'\x00', b'\x00\x00\xff\xff\xff\x00\x04\xfc' + body + dcs + b'\x00',
+                b'\x00\x00\xff\xff\xff\x05\x00\xfa' + body + dcs + b'\x00', b'\x00\x00\xff\xff\xff\x04\x00\xfc' + body + dcs + b'\x00',
+                b'\x00\x00\xff\xff\xff\xff\xff\x02' + body + dcs + b'\x00']
+        # zero / one byte bodies, error frame, NAK, doubled ACK
+        out += [H('0000ff000000'), H('0000ff00000000'), H('0000ffffff0000000000'), H('0000ffffff000000'),
+                H('0000ff01ff7f8100'), H('0000ff01ff7f81'), H('0000ff01ffd52b00'), H('0000ff01ffd72900'),
+                H('0000ffffff0001ffd52b00'), H('0000ffffff0100ffd72900'), H('0000ffff0000'),
+                H('0000ff00ff000000ff00ff00'), H('ff'), H('00ff'), H('ffffffffffff'), bytes(6), bytes(7), bytes(16)]
+    else:
+        apdu = bytes([0xD5, rc, 0, 1, 2, 0x90, 0x00])
+        good = b'\x80' + struct.pack('<I', len(apdu)) + bytes(5) + apdu
+        out += _prefixes(good, 13) + [good[:-1], good[:-2], good + b'\x00']
+        out += [b'\x80' + struct.pack('<I', n) + bytes(5) + apdu for n in (0, 1, 6, 8, 0xFFFFFFFF)]
+        out += [b'\x81' + good[1:], b'\x80' + struct.pack('<I', 0) + bytes(5), b'\x80' + struct.pack('<I', 2) + bytes(5) + b'\x90\x00',
+                b'\x80' + struct.pack('<I', 3) + bytes(5) + b'\xd5\x90\x00', b'\x80' + struct.pack('<I', 4) + bytes(5) + bytes([0xD5, rc, 0x90, 0x00]),
+                b'\x80' + struct.pack('<I', 2) + bytes(5) + b'\x63\x00', bytes(10), bytes(9), b'\xff' * 10]
+    seen, uniq = set(), []
+    for f in out:
+        if f not in seen:
+            seen.add(f)
+            uniq.append(f)
+    return uniq
